@@ -12,12 +12,20 @@ def pLines : P (List (List Tok)) := listOf (listOf TermDrive.pTok)
 
 def segHex (s : Seg) : String := hexEncode (toksStr s).toUTF8.toList
 
+/-- rows are compared as content: the bytes of a row, whatever way they are split into `(None, "U", …)` segments -/
 def fmtRows (rows : List Row) : String :=
-  String.intercalate " " ("ok" :: rows.map fun r => String.intercalate "," (r.map segHex))
+  String.intercalate " " ("ok" :: rows.map fun r => segHex r.flatten)
+
+def pReq : P (Int × Int × Int × Int) := do
+  let a ← int; let b ← int; let c ← int; let d ← int; pure (a, b, c, d)
 
 def fmtErr : Err → String
   | .indexError => "err IndexError"
   | .valueError => "err ValueError"
+
+def fmtContent : Except Err (List Row) → String
+  | .ok rows => fmtRows rows
+  | .error e => fmtErr e
 
 def fmtGRow : GRow (List UInt8) → String
   | .line l d => hexEncode (l ++ (List.replicate d [8, 32]).flatten)
@@ -51,6 +59,21 @@ def handler : Handler := fun op args =>
       pure (match contentAt ws cv tl tt c r with
         | .ok rows => fmtRows rows
         | .error e => fmtErr e)) args
+  | "contentn" => run (do
+      -- several requests on ONE canvas value (consumed interleaved by the real code): each is answered on its own
+      let cols ← int; let rows ← int; let imgCols ← int; let imgRows ← int
+      let hAlign ← pAlign; let vAlign ← pAlign
+      let reqs ← listOf pReq
+      let lines ← pLines
+      let cv : Canvas := { cols, rows, imgCols, imgRows, lines, hAlign, vAlign }
+      pure (String.intercalate " / " (reqs.map fun (tl, tt, c, r) => fmtContent (textContent cv tl tt c r)))) args
+  | "gfxn" => run (do
+      let cols ← int; let rows ← int
+      let cs ← nat; let ws ← nat; let k ← bool; let i ← bool; let ko ← bool
+      let reqs ← listOf pReq
+      let lines ← listOf hex
+      pure (String.intercalate " / " (reqs.map fun (tl, tt, c, r) =>
+        String.intercalate " " ("ok" :: (gfxContent lines cols rows tl tt c r (disguiseCount cs ws k i ko)).map fmtGRow)))) args
   | "gfx" => run (do
       let cols ← int; let rows ← int
       let tl ← int; let tt ← int; let c ← int; let r ← int
